@@ -269,6 +269,9 @@ class Engine:
         cmod = ClauseModule(it)
         env = Env(cmod)
         args = {}
+        B.built = args
+        opts = getattr(c, 'options', None) or {}
+        it.concrete_number_lengths = bool(opts.get('concrete_number_lengths'))
         for nm, sp in specs.items():
             args[nm] = sp.sym(B, nm)
             env.vars[nm] = args[nm]
